@@ -22,3 +22,15 @@ Theorem c04_linearizable_cursor_until_first_gap : forall e, iter_env e -> forall
   check_prop 4 e (c_trace (exec e (init progs) sched)) (c_labels (exec e (init progs) sched)) = true.
 Proof. exact iter_C04_until_gap. Qed.
 Print Assumptions c04_linearizable_cursor_until_first_gap.
+
+(** ** after the repair of the waiting loop (a thread that finds its ticket at the yielded counter looks at
+    the completed flag once more before it uses the wrapped iterator): nothing is delivered after the first
+    None of the wrapped iterator, premature or not ([C07.c07_no_call_after_none]) *)
+From OCI.proofs Require Import AfterNone.
+
+(** every wrapped iterator, fused or not: one linearizable cursor, on every run *)
+Theorem c04_linearizable_cursor_any_iterator : forall e, iter_env e -> forall progs, wf_progs progs -> forall sched,
+  nowrap (c_labels (exec e (init progs) sched)) ->
+  check_prop 4 e (c_trace (exec e (init progs) sched)) (c_labels (exec e (init progs) sched)) = true.
+Proof. exact iter_C04_any. Qed.
+Print Assumptions c04_linearizable_cursor_any_iterator.
